@@ -20,7 +20,7 @@ PROPS = {
         "module": "Cdecao.Props.C02",
         "theorems": ["Props.C02_node_bound", "Props.C02_node_mono", "Props.C02_cover", "Props.C02_node_none", "Props.C02_feas_in_sol",
                      "Props.C02_feas_optimal", "Props.C02_wrong_empty", "Props.C02_compose", "Props.C02_partial", "Props.noFreeableb_sound", "Props.C02_full_counterexample", "Props.F1_root", "Props.F1_enforce", "Props.F1_cancel"],
-        "streams": ["solve-norooms", "node-norooms"],
+        "streams": ["solve-norooms", "node-norooms", "hungarian"],
     },
     "C03": {
         "module": "Cdecao.Props.C03",
@@ -36,7 +36,7 @@ PROPS = {
     "C05": {
         "module": "Cdecao.Props.C05",
         "theorems": ["Props.C05_regs", "Props.C05_courses", "Props.C05_no_cancelled_assignment", "Props.C05_consistent", "Props.C05_consistent_anyKeys"],
-        "streams": ["e2e-cde"],
+        "streams": ["e2e-cde", "node", "node-rooms"],
     },
     "C06": {
         "module": "Cdecao.Props.C06",
@@ -67,7 +67,7 @@ PROPS = {
     "C11": {
         "module": "Cdecao.Props.C11",
         "theorems": ["Props.C11_max", "Props.C11_min", "Props.C11_min_le_max", "Props.C11_fixed", "Props.C11_fixed_written", "Props.C11_consistent"],
-        "streams": ["cdedb-read", "e2e-cde"],
+        "streams": ["cdedb-read", "e2e-cde", "node", "node-rooms"],
     },
     "C12": {
         "module": "Cdecao.Props.C12",
